@@ -75,7 +75,7 @@ def Paired (s : St) : Prop := NodupPids s ∧ Sync s
 
 theorem iter_paired (c : Cfg) (hb : PosBeh c.beh) (endT : Int) (s : St) (force : Bool)
     (hp : Paired s) (hinv : Inv s) (hlt : s.gt < endT) : Paired (iter c endT force s) := by
-  refine ⟨?_, iter_sync c hb endT force s (by omega) hinv hp.1 hp.2⟩
+  refine ⟨?_, iter_sync c hb endT force s hinv hp.1 hp.2⟩
   unfold NodupPids
   rw [iter_pids]
   exact hp.1
@@ -307,5 +307,91 @@ theorem iter_at_end (c : Cfg) (hb : PosBeh c.beh) (s : St) (hinv : Inv s) (hnp :
       Function.comp_def] at hpf
     obtain ⟨⟨a, b⟩, hab, rfl⟩ := hpf
     exact (hfront (a, b) hab).2.2
+
+/-- `run_for(0, force_complete=True)` is exactly one pass of the loop at the end time -/
+theorem runFor_zero (c : Cfg) (hb : PosBeh c.beh) (s : St) (hinv : Inv s) (hnp : NoPending s) :
+    runFor c 0 true s = some (iter c s.gt true { s with emitTime := s.gt + c.emitStep }) := by
+  have key := iter_at_end c hb { s with emitTime := s.gt + c.emitStep } hinv hnp
+  simp only at key
+  unfold runFor
+  simp only [Int.add_zero, Nat.zero_add, Int.natCast_zero]
+  unfold loop
+  simp only [Bool.or_true, ite_true]
+  rw [show (iter c s.gt true { s with emitTime := s.gt + c.emitStep }).gt = s.gt from key.1]
+  simp only [decide_true, Bool.and_self, ite_true]
+  unfold loop
+  simp [key.1]
+
+/-- nothing is pending after a call of positive length -/
+theorem noPending_after_pos (c : Cfg) (hb : PosBeh c.beh) (interval : Nat) (force : Bool)
+    (s s' : St) (hinv : Inv s) (hnp : NoPending s) (hpos : 0 < interval)
+    (hrun : runFor c interval force s = some s') : NoPending s' ∧ Inv s' := by
+  have h := runFor_preserves' c hb (fun x => Bnd (s.gt + interval) x)
+    (fun x t hx => hx) interval force s s'
+    (fun x fo hx _ _ => iter_bnd c (s.gt + interval) fo x hx) hrun
+    (by intro pf hpf u hu; rw [hnp pf hpf] at hu; cases hu) hinv hpos
+  exact ⟨noPending_of_bnd (s.gt + interval) s' h.2.1 h.1 h.2.2, h.2.1⟩
+
+/-- an unforced call of length 0 returns at once -/
+theorem runFor_zero_false (c : Cfg) (s : St) :
+    runFor c 0 false s = some { s with emitTime := s.gt + c.emitStep } := by
+  simp [runFor, loop]
+
+/-- **Invariants along any sequence of calls whatever** — any lengths, zero included, forced or not: `hP`
+carries the invariant through a pass before the end time, `hP0` through the zero-length forced pass (an
+unforced call of length 0 does nothing). -/
+theorem runCalls_preserves0 (c : Cfg) (hb : PosBeh c.beh) (P : St → Prop)
+    (hemit : ∀ s t, P s → P { s with emitTime := t })
+    (hP : ∀ endT s force, P s → Inv s → s.gt < endT → P (iter c endT force s))
+    (hP0 : ∀ s, P s → Inv s → NoPending s → P (iter c s.gt true s))
+    (calls : List (Nat × Bool)) (s s' : St) (h : runCalls c calls s = some s')
+    (hp : P s) (hinv : Inv s) (hnp : NoPending s) :
+    P s' ∧ Inv s' ∧ NoPending s' := by
+  induction calls generalizing s with
+  | nil => simp [runCalls] at h; subst h; exact ⟨hp, hinv, hnp⟩
+  | cons cf rest ih =>
+    obtain ⟨iv, force⟩ := cf
+    simp only [runCalls] at h
+    cases hr : runFor c iv force s with
+    | none => simp [hr] at h
+    | some s1 =>
+      simp only [hr] at h
+      rcases Nat.eq_zero_or_pos iv with hz | hpos
+      · subst hz
+        cases force with
+        | false =>
+          rw [runFor_zero_false] at hr
+          injection hr with hr
+          subst hr
+          exact ih _ h (hemit s _ hp) hinv hnp
+        | true =>
+          rw [runFor_zero c hb s hinv hnp] at hr
+          injection hr with hr
+          subst hr
+          have key := iter_at_end c hb { s with emitTime := s.gt + c.emitStep } hinv hnp
+          refine ih _ h (hP0 _ (hemit s _ hp) hinv hnp) ?_ ?_
+          · intro pf hpf
+            have := (key.2 pf hpf).2.2
+            simpa [key.1] using this
+          · intro pf hpf
+            exact (key.2 pf hpf).2.1
+      · have ⟨h1, h2, _⟩ := runFor_preserves c hb P hemit hP iv force s s1 hr hp hinv hpos
+        have h3 := (noPending_after_pos c hb iv force s s1 hinv hnp hpos hr).1
+        exact ih s1 h h1 h2 h3
+
+/-- `Paired` is kept by any pass of the loop (the zero-length forced one included) -/
+theorem iter_paired' (c : Cfg) (hb : PosBeh c.beh) (endT : Int) (s : St) (force : Bool)
+    (hp : Paired s) (hinv : Inv s) : Paired (iter c endT force s) := by
+  refine ⟨?_, iter_sync c hb endT force s hinv hp.1 hp.2⟩
+  unfold NodupPids
+  rw [iter_pids]
+  exact hp.1
+
+theorem init_noPending (c : Cfg) (t0 : Int) (pids : List Pid) (layers : List (List Sid)) (store : Store) :
+    NoPending (init c t0 pids layers store) := by
+  intro pf hpf
+  simp [init, init0] at hpf
+  obtain ⟨p, _, rfl⟩ := hpf
+  simp [newFront]
 
 end Viv.Sched
